@@ -327,3 +327,96 @@ def arm_family(seed, n, base_id, k=3, p_ctx=0.0, p_bare=0.2):
         except Exception:
             continue
     return out
+
+
+def realistic_family(seed, n, base_id, k=3):
+    """Lexers shaped like the ones people write (and like the demonstrations mutation agents
+    write): whitespace skipping, keywords before identifiers, integers and floats (rewind on
+    "12."), operators that are prefixes of one another, a sign rule with a right context in front
+    of '+' and '-', line comments with `_ # '\\n'`, strings and block comments as rule sets
+    entered by `switch` with accumulation (`continue_`), escapes, `switch_and_return`, and an
+    error or a `$` rule for unterminated strings.  Components, their order (within the priority
+    constraints that keep the definition meaningful) and their details are drawn at random."""
+    g = Gen(seed)
+    rnd = g.rnd
+    SP, NL, QU, BS, SL, ST, DOT, EQ, LT, GT, PL, MI = 32, 10, 34, 92, 47, 42, 46, 61, 60, 62, 43, 45
+    I, Fc, N, ZERO, ONE = 105, 102, 110, 48, 49
+    out = []
+    while len(out) < n:
+        lower = rnd.choice([set_([(97, 122)]), bi("lowercase"), set_([(97, 110)])])
+        digit = rnd.choice([set_([(48, 57)]), bi("numeric"), set_([(48, 49)])])
+        use_str = rnd.random() < 0.6
+        use_com = rnd.random() < 0.4
+        names = ["Init"] + (["Str"] if use_str else []) + (["Com"] if use_com else [])
+        idx = {nm: i for i, nm in enumerate(names)}
+        init = []
+        sig = {I, Fc, ONE}
+        # whitespace
+        if rnd.random() < 0.8:
+            init.append(skip_rule(rnd.choice([plus(set_([(SP, SP), (NL, NL)])), set_([(SP, SP), (NL, NL)]), chr_(SP)])))
+            sig.add(SP)
+        # keywords, then identifiers
+        kws = rnd.sample([[I, Fc], [I, N], [I, N, 116], [Fc, N]], rnd.choice([0, 1, 2]))
+        words = [simple_rule(str_(w)) for w in kws]
+        ident = rnd.choice([cat(lower, star(alt(lower, digit))), plus(lower), cat(lower, star(alts(lower, digit, chr_(95))))])
+        words.append(rnd.choice([simple_rule, inf_rule])(ident))
+        if rnd.random() < 0.15:
+            words.reverse()     # identifiers first: keywords never win (still a well-formed lexer)
+        init += words
+        # numbers
+        nums = [inf_rule(plus(digit))]
+        if rnd.random() < 0.6:
+            nums.append(inf_rule(cats(plus(digit), chr_(DOT), plus(digit))))
+            sig.add(DOT)
+        rnd.shuffle(nums)
+        init += nums
+        # operators
+        ops = rnd.sample([[EQ], [EQ, EQ], [EQ, GT], [LT], [LT, EQ], [LT, LT, EQ], [GT, GT]], rnd.choice([1, 2, 3, 4]))
+        for o in ops:
+            init.append(simple_rule(str_(o) if len(o) > 1 else chr_(o[0])))
+            sig.update(o)
+        if rnd.random() < 0.5:
+            sgn = [inf_rule(set_([(PL, PL), (MI, MI)]), ctx=digit)]
+            if rnd.random() < 0.8:
+                sgn.append(simple_rule(chr_(PL)))
+            if rnd.random() < 0.8:
+                sgn.append(simple_rule(chr_(MI)))
+            init += sgn
+            sig.update([PL, MI])
+        if rnd.random() < 0.4:
+            init.append(skip_rule(cat(str_([SL, SL]), star(diff(any_(), chr_(NL))))))
+            sig.update([SL, NL])
+        sets = {"Init": init}
+        if use_str:
+            init.append(inf_rule(chr_(QU), menu=[D(rnd.random() < 0.3, idx["Str"], 0)]))
+            s = [inf_rule(chr_(QU), menu=[D(False, 0, 1)]),
+                 inf_rule(cat(chr_(BS), any_()), menu=[D(False, -1, 0)]),
+                 inf_rule(rnd.choice([diff(any_(), set_([(QU, QU), (BS, BS)])), any_()]), menu=[D(False, -1, 0)])]
+            if rnd.random() < 0.4:
+                s.append(fal_rule(eoi(), [D(False, 0, 2)]))
+            rnd.shuffle(s) if rnd.random() < 0.3 else None
+            sets["Str"] = s
+            sig.update([QU, BS])
+        if use_com:
+            init.append(inf_rule(str_([SL, ST]), menu=[D(False, idx["Com"], 0)]))
+            c = [inf_rule(str_([ST, SL]), menu=[D(True, 0, 0)]),
+                 rnd.choice([skip_rule(any_()), inf_rule(any_(), menu=[D(False, -1, 0)])])]
+            if rnd.random() < 0.3:
+                c.insert(0, inf_rule(str_([SL, ST]), menu=[D(False, -1, 0)]))
+            sets["Com"] = c
+            sig.update([SL, ST])
+        if rnd.random() < 0.3:
+            init.append(simple_rule(any_()))
+        sigma = sorted(sig)
+        if len(sigma) > 9:
+            keep = [c for c in (QU, BS, SL, ST, DOT, PL) if c in sig]
+            sigma = sorted(set(keep + rnd.sample(sigma, 9))[:10]) if False else sorted(set(keep) | set(rnd.sample(sigma, max(1, 9 - len(keep)))))
+        p = Program(base_id + len(out), [(nm, sets[nm]) for nm in names], sigma=sigma, k=k)
+        p.bi = ASCII_BI
+        try:
+            ok = p.well_formed(ASCII_BI)
+        except Exception:
+            ok = False
+        if ok:
+            out.append(p)
+    return out
